@@ -372,6 +372,13 @@ var semExtra = []func(thorough bool) *wgen.Family{
 		}
 		return wgen.F2Mini(4, 4)
 	},
+	// operation sequences on a function-local struct (field stores, whole reads/writes/copies, pointer updates)
+	func(thorough bool) *wgen.Family {
+		if thorough {
+			return wgen.F13s(4)
+		}
+		return wgen.F13s(3)
+	},
 }
 
 func runSem(be *semBackend) int {
